@@ -867,6 +867,13 @@ write_enum_info (const gchar *namespace,
       g_base_info_unref ((GIBaseInfo *)value);
     }
 
+  for (i = 0; i < g_enum_info_get_n_methods (info); i++)
+    {
+      GIFunctionInfo *function = g_enum_info_get_method (info, i);
+      write_function_info (namespace, function, file);
+      g_base_info_unref ((GIBaseInfo *)function);
+    }
+
   xml_end_element_unchecked (file);
 }
 
